@@ -102,7 +102,6 @@ claqgs(SuperMatrix *A, float *r, float *c,
     int_t i, j;
     int   irow;
     float large, small, cj;
-    float temp;
 
 
     /* Quick return if possible */
@@ -145,8 +144,9 @@ claqgs(SuperMatrix *A, float *r, float *c,
 	    cj = c[j];
 	    for (i = Astore->colptr[j]; i < Astore->colptr[j+1]; ++i) {
 		irow = Astore->rowind[i];
-		temp = cj * r[irow];
-		cs_mult(&Aval[i], &Aval[i], temp);
+		/* cj * r[irow] may overflow */
+		cs_mult(&Aval[i], &Aval[i], r[irow]);
+		cs_mult(&Aval[i], &Aval[i], cj);
 	    }
 	}
 	*(unsigned char *)equed = 'B';
